@@ -174,6 +174,11 @@ def monitor(case, obs, ref_final):
         calls = att["calls"]
         if att["result"] == "panic":
             bad.append("attempt %d: Upgrade panicked: %s" % (ai, att.get("msg")))
+        if att["result"] == "ok" and att.get("returned") is None:
+            bad.append("attempt %d: Upgrade reported success without returning the Advanced StatefulSet (a failed call was swallowed)" % ai)
+        if att["result"] == "ok" and any(c.get("err") and not (c["verb"] == "get" and c.get("err") == "notfound") and not (c["verb"] == "delete" and c.get("err") == "notfound") for c in calls):
+            bad.append("attempt %d: Upgrade reported success although a call failed: %s" % (
+                ai, [(c["verb"], c["res"], c.get("err")) for c in calls if c.get("err")][:2]))
         listed = []
         for i, c in enumerate(calls):
             sh = shape(c)
@@ -365,7 +370,10 @@ ERR = {"500": "E500", "conflict": "EConflict", "notfound": "ENotFound", "exists"
 def outcome_term(att):
     r = att["result"]
     if r == "ok":
-        a = att["returned"]
+        a = att.get("returned")
+        if a is None:
+            # success reported without an object (never the model's outcome: rendered as an error the model cannot produce here)
+            return "(OErr EOther)"
         return "(OOk %s)" % aset_term(a["meta"], a["spec"], a["status"], rvnum(a["rv"]))
     if r == "err":
         return "(OErr %s)" % ERR.get(att.get("err"), "EOther")
